@@ -62,17 +62,6 @@ def absFrame (F : NFrame Cell) : List (String × Sum (String × List Cell) (LCol
 def withNest (cols : List (String × Sum (String × List Cell) (LCol Cell))) (n : String) (c : LCol Cell) :=
   if cols.any (·.1 == n) then cols.map fun p => if p.1 == n then (n, Sum.inr c) else p else cols ++ [(n, Sum.inr c)]
 
-def cellIsNull : Cell → Bool := Option.isNone
-
-/-- order on non-null values used by sort_values: NaN above every number -/
-def Val.lt (a b : Val) : Bool :=
-  match a, b with
-  | .nan, _ => false
-  | x, .nan => x != .nan
-  | a, b => (Val.cmp .lt a b).getD false
-
-def cellLt (a b : Cell) : Bool := match a, b with | some x, some y => Val.lt x y | _, _ => false
-
 def howOfJson (j : Json) : P How := do
   match (← strOf j) with | "any" => pure .any | "all" => pure .all | h => throw s!"bad how {h}"
 
